@@ -145,11 +145,151 @@ def enc_hist(r):
         steps.append("(%s, %s, %s)" % (op_t(m, op), lst(op["probes"], m.h), obs))
     return m.wrap("Hist [\n    " + ";\n    ".join(steps) + "]")
 
+# ---- monitors: the properties evaluated on what the implementation did (no model involved) -----------
+
+ITER_PREFIX = b"iterateConsensusStates"
+CONS_PREFIX = b"consensusStates/"
+
+def parse_height_text(t):
+    parts = t.split(b"-")
+    if len(parts) != 2 or not all(p.isdigit() for p in parts):
+        return None
+    return (int(parts[0]), int(parts[1]))
+
+class View:
+    """a client-store dump read independently of the model"""
+    def __init__(self, store):
+        self.client = None
+        self.cons, self.ptime, self.pheight = {}, {}, {}
+        self.iters = []          # (height, value bytes) in the store's iteration order
+        self.other = []
+        for khex, v in store:
+            k = bytes.fromhex(khex)
+            if k == b"clientState" and v[0] == "client":
+                self.client = dict(latest=(int(v[1][0]), int(v[1][1])), frozen=bool(v[2]), tp=int(v[3]))
+            elif k.startswith(ITER_PREFIX) and len(k) == len(ITER_PREFIX) + 16 and v[0] == "raw":
+                be = k[len(ITER_PREFIX):]
+                self.iters.append(((int.from_bytes(be[:8], "big"), int.from_bytes(be[8:], "big")), bytes.fromhex(v[1])))
+            elif k.startswith(CONS_PREFIX):
+                rest = k[len(CONS_PREFIX):]
+                if b"/" not in rest and v[0] == "cons" and parse_height_text(rest) is not None:
+                    self.cons[parse_height_text(rest)] = (int(v[1]), v[2], v[3])
+                elif rest.endswith(b"/processedTime") and v[0] == "raw" and parse_height_text(rest[:-14]) is not None:
+                    self.ptime[parse_height_text(rest[:-14])] = v[1]
+                elif rest.endswith(b"/processedHeight") and v[0] == "raw" and parse_height_text(rest[:-16]) is not None:
+                    self.pheight[parse_height_text(rest[:-16])] = v[1]
+                else:
+                    self.other.append(khex)
+            else:
+                self.other.append(khex)
+    def consistent(self):
+        hs = set(self.cons)
+        if not (hs == set(self.ptime) == set(self.pheight) == set(h for h, _ in self.iters)):
+            return False
+        if len(self.iters) != len(hs) or self.other:
+            return False
+        return all(v == CONS_PREFIX + b"%d-%d" % h for h, v in self.iters)
+    def status(self, now):
+        if self.client is None:
+            return "unknown"
+        if self.client["frozen"]:
+            return "frozen"
+        c = self.cons.get(self.client["latest"])
+        if c is None or c[0] + self.client["tp"] <= now:
+            return "expired"
+        return "active"
+
+def neighbours(cons, h):
+    below = [x for x in cons if x < h]
+    above = [x for x in cons if x > h]
+    return (max(below) if below else None, min(above) if above else None)
+
+def mono(cons):
+    hs = sorted(cons)
+    return all(cons[a][0] < cons[b_][0] for a, b_ in zip(hs, hs[1:]))
+
+def spec_hist(r, pid):
+    client_hist = r["k"] == "client_hist"
+    pre = View([])
+    for i, (op, ob) in enumerate(zip(r["in"], r["out"])):
+        post = View(ob["store"])
+        k = op["op"]
+        where = "history step %d (%s%s)" % (i, k, "/" + op["tag"] if op.get("tag") else "")
+        now = int(op["now"]) if "now" in op else None
+        if pid == "C22":
+            hs = [h for h, _ in post.iters]
+            if any(not (a < b_) for a, b_ in zip(hs, hs[1:])):
+                return "%s: ascending iteration is not in (revision, height) order: %s" % (where, hs)
+            if client_hist:
+                if not post.consistent():
+                    return ("%s: metadata not one-to-one with consensus states: cons=%s processedTime=%s processedHeight=%s iteration=%s other=%s"
+                            % (where, sorted(post.cons), sorted(post.ptime), sorted(post.pheight), post.iters, post.other))
+            if post.consistent():
+                for ph, res in zip(op["probes"], ob["probes"]):
+                    h = (int(ph[0]), int(ph[1]))
+                    if res == "panic":
+                        return "%s: neighbour lookup for %s panicked" % (where, h)
+                    lo, hi = neighbours(post.cons, h)
+                    want = [list(map(str, post.cons[hi][:1])) + list(post.cons[hi][1:]) if hi is not None else None,
+                            list(map(str, post.cons[lo][:1])) + list(post.cons[lo][1:]) if lo is not None else None]
+                    if res != want:
+                        return "%s: GetNext/GetPrevious(%s) = %s, true neighbours are next=%s prev=%s" % (where, h, res, hi, lo)
+            if k in ("prune", "update") and pre.consistent() and pre.client is not None and ob["out"] == "ok":
+                removed = [h for h in pre.cons if h not in post.cons]
+                if removed:
+                    oldest = min(pre.cons)
+                    if removed != [oldest]:
+                        return "%s: pruning removed %s, the oldest stored height is %s" % (where, removed, oldest)
+                    if pre.cons[oldest][0] + pre.client["tp"] > now:
+                        return "%s: pruned consensus state %s was not expired (ts %d + trusting %d > now %d)" % (
+                            where, oldest, pre.cons[oldest][0], pre.client["tp"], now)
+                    if oldest in post.ptime or oldest in post.pheight or oldest in [h for h, _ in post.iters]:
+                        return "%s: pruned height %s left metadata behind" % (where, oldest)
+        if pid == "C20" and client_hist and k != "init":
+            for h, c in pre.cons.items():
+                if h in post.cons:
+                    if post.cons[h] != c:
+                        return "%s: consensus state at %s changed from %s to %s" % (where, h, c, post.cons[h])
+                elif pre.client is None or c[0] + pre.client["tp"] > now:
+                    return "%s: consensus state at %s was removed although not expired" % (where, h)
+            if k == "misb" and post.cons != pre.cons:
+                return "%s: a misbehaviour message changed the consensus states" % where
+            if k == "update" and op["hdr"]["ok"] and pre.status(now) == "active":
+                hd = op["hdr"]
+                h = (int(hd["h"][0]), int(hd["h"][1]))
+                hc = (int(hd["ts"]), hd["root"], hd["nvh"])
+                if h in pre.cons and pre.cons[h] == hc:
+                    if ob["out"] != "ok" or post.client["frozen"]:
+                        return "%s: resubmitted header was not a no-op (outcome %s, frozen %s)" % (where, ob["out"], post.client["frozen"])
+                    if post.cons.get(h) != hc or post.ptime.get(h) != pre.ptime.get(h) or post.pheight.get(h) != pre.pheight.get(h):
+                        return "%s: resubmitted header changed the stored state or metadata at %s" % (where, h)
+                if h in pre.cons and pre.cons[h] != hc:
+                    if ob["out"] != "ok" or not post.client["frozen"] or post.cons != pre.cons:
+                        return "%s: conflicting header for stored height %s did not freeze the client with consensus states unchanged" % (where, h)
+        if pid == "C23" and client_hist and k in ("update", "misb", "prune", "pruneall"):
+            if k == "update" and ob["out"] == "ok":
+                hd = op["hdr"]
+                h = (int(hd["h"][0]), int(hd["h"][1]))
+                ts = int(hd["ts"])
+                if h not in pre.cons and h in post.cons:
+                    lo, hi = neighbours(post.cons, h)
+                    if (lo is not None and not post.cons[lo][0] < post.cons[h][0]) or (hi is not None and not post.cons[h][0] < post.cons[hi][0]):
+                        return "%s: stored consensus state at %s has a timestamp not strictly between its neighbours %s/%s" % (where, h, lo, hi)
+                if h not in pre.cons and hd["ok"] and pre.status(now) == "active":
+                    lo, hi = neighbours(pre.cons, h)
+                    bad = (lo is not None and pre.cons[lo][0] >= ts) or (hi is not None and pre.cons[hi][0] <= ts)
+                    if bad and (not post.client["frozen"] or post.cons != pre.cons):
+                        return "%s: header time %d at %s outside neighbours' range did not freeze the client with consensus states unchanged" % (where, ts, h)
+            if mono(pre.cons) and post.client is not None and not post.client["frozen"] and not mono(post.cons):
+                return "%s: timestamps no longer increase with height: %s" % (where, sorted((h, c[0]) for h, c in post.cons.items()))
+        pre = post
+    return None
+
 KINDS = {
     "block_delay": dict(props=["C19"], enc=enc_block_delay, spec=spec_block_delay, exact=True),
     "delay_passed": dict(props=["C19"], enc=enc_delay_passed, spec=spec_delay_passed, exact=True),
-    "store_hist": dict(props=["C22"], enc=enc_hist, spec=None, exact=False),
-    "client_hist": dict(props=["C20", "C22", "C23"], enc=enc_hist, spec=None, exact=False),
+    "store_hist": dict(props=["C22"], enc=enc_hist, spec=spec_hist, spec_takes_pid=True, exact=False),
+    "client_hist": dict(props=["C20", "C22", "C23"], enc=enc_hist, spec=spec_hist, spec_takes_pid=True, exact=False),
 }
 
 MONITORS = {}
